@@ -50,7 +50,7 @@ VIX = "dask_array.slicing._vindex"
 ARG = "dask_array.creation._arange"
 DB = "dask.blockwise"
 MT = "dask_array._materialize"
-MODS = [MT, "dask_array.core._blockwise_funcs", "dask_array.core._conversion", EX, BW, CU, RC, FA, IOB, SB, SU, "dask_array.slicing", CO, NC, TR, XP, SQ, BT, CC, SK, RD, RCM, SHF, VIX, ARG, "dask_array._overlap", "dask_array._map_blocks", "dask_array._chunk", "dask.layers", "dask_array.reductions._sliding_window", "dask_array.manipulation._reshape", "dask_array.reductions._arg_reduction", DB]
+MODS = [MT, "dask_array.core._blockwise_funcs", "dask_array.core._conversion", EX, BW, CU, RC, FA, IOB, SB, SU, "dask_array.slicing", CO, NC, TR, XP, SQ, BT, CC, SK, RD, RCM, SHF, VIX, ARG, "dask_array._overlap", "dask_array._map_blocks", "dask_array._chunk", "dask.layers", "dask_array.reductions._sliding_window", "dask_array.manipulation._reshape", "dask_array.reductions._arg_reduction", "dask_array.creation._diag", "dask_array.creation._diagonal", DB]
 STUBS = SHIM_LIST + [
     "expression classes -> symx.nodes (real methods on cloned code; constructors/tokenize bypassed, structural names); the "
     "Array collection class -> subclass with cloned methods",
@@ -411,6 +411,13 @@ def p_sliding_view(w, E, p, windows, axes):
     return Prog(view.expr, SArr(tuple(shape) + tuple(windows), at), p.dsk)
 
 
+def p_diag(w, E, p, k=0):
+    """da.diag(x, k) through the public function (1-d: the matrix with x on its diagonal; 2-d: the k-th diagonal)"""
+    coll = w.fn(NC, "new_collection")(p.node)
+    out = w.fn("dask_array.creation._diag", "diag")(coll, k)
+    return Prog(out.expr, np.diag(p.ref, k), p.dsk)
+
+
 def p_take(w, E, p, axis, index):
     """x[..., [i, j, ...], ...] through Array.__getitem__ (normalize_index -> slice_wrap_lists -> take -> Shuffle);
     the index values are concrete, the axis is long enough to hold them"""
@@ -513,6 +520,10 @@ def programs(tier):
     reg("sliding_window_view(x3,W,0).sum(-1)", lambda w, E: p_sliding_sum(w, E, source(w, E, "x", (3,)), 0), 12)
     reg("sliding_window_view(x3,2,0)", lambda w, E: p_sliding_view(w, E, source(w, E, "x", (3,)), (2,), (0,)), 8)
     reg("sliding_window_view(x2,(2,2),(0,0))", lambda w, E: p_sliding_view(w, E, source(w, E, "x", (2,)), (2, 2), (0, 0)), 8)
+    reg("diag(x2)", lambda w, E: p_diag(w, E, source(w, E, "x", (2,))), 2)
+    reg("diag(x2x2, same chunks on both axes)", lambda w, E: p_diag(w, E, _square(w, E, 2)), 3)
+    reg("diag(x[3+5,5+3])", lambda w, E: p_diag(w, E, source(w, E, "x", (2, 2), chunks=[(3, 5), (5, 3)])), 2)
+    reg("diag(x[2+2,1+3],k=1)", lambda w, E: p_diag(w, E, source(w, E, "x", (2, 2), chunks=[(2, 2), (1, 3)]), 1), 2)
     # point-wise indexing with two integer arrays (entries enumerated by forking; sizes of the other axes symbolic)
     reg("x(2,1)x2.vindex[[p,q],:]... two arrays: x.vindex[[p0,p1],:,[q0,2]]", lambda w, E: _vindex_prog(w, E, ((2, 1), "s", (1, 2)), 2, {(2, 1): 2}), 9)
     reg("x.vindex[:,[p0,1],:,[q0,q1]] (4-d, separated axes)", lambda w, E: _vindex_prog(w, E, ("s", (1, 1), "s", (2,)), 2, {(1, 1): 1}), 9)
@@ -578,6 +589,11 @@ def _rechunk_over(w, E, p, new_blocks, tag="r"):
         E.assume(sum(c) == sum(cur[a]))
         tgt.append(c)
     return p_rechunk(w, p, tuple(tgt))
+
+
+def _square(w, E, m):
+    x = source(w, E, "x", (m,))
+    return source(w, E, "x", (m, m), chunks=[x.node.chunks[0], x.node.chunks[0]])
 
 
 def _add_dtype(w, E, blocks):
